@@ -49,7 +49,10 @@ def faults_for(case):
                                    "set_value_nonparam", "set_initial_param", "set_initial_unknown",
                                    "bad_grid_constraint", "bad_grid_sample", "foreign_symbol_constraint",
                                    "foreign_symbol_ode", "constant_false", "horizon_in_ode", "set_value_variable",
-                                   "bad_grid_integral", "bad_grid_sum", "bad_grid_variable", "bad_grid_parameter")]
+                                   "bad_grid_integral", "bad_grid_sum", "bad_grid_variable", "bad_grid_parameter",
+                                   "constant_false_two_sided")]
+    if case.get("discrete"):
+        out += [{"fault": "set_next_nonstate"}, {"fault": "discrete_alg"}]
     if "fixed" in case.get("T", {}) and "fixed" in case.get("t0", {}):
         # constraints on the (fixed) horizon symbols that are false: constant only after placeholder substitution
         out += [{"fault": "horizon_false_T"}, {"fault": "horizon_false_tf"}, {"fault": "horizon_false_t"}]
@@ -82,7 +85,7 @@ def ispec_coq(case, f):
         val = {"second": [True, False], "first": [False, True], "template_only_ok": [True, True]}[f["which"]]
     meth = "None" if fl == "no_method" else "(Some %s)" % {"MS": "KMS", "SS": "KSS", "DC": "KDC", "Spline": "KSpline"}[kind]
     nobj = len(case["objective"])
-    nalg = len(case.get("alg", [])) + (1 if fl in ("alg_explicit", "alg_eq_no_var") else 0)
+    nalg = len(case.get("alg", [])) + (1 if fl in ("alg_explicit", "alg_eq_no_var", "discrete_alg") else 0)
     return "(mkI %s %s true %s %s %s %s %s %s %s %s %s %d%%nat %s %s %d%%nat %s)" % (
         b(rule), b(val), meth, "false" if fl == "no_solver" else "true",
         b([True] * nobj + ([False] if fl == "signal_objective" else [])),
@@ -91,8 +94,8 @@ def ispec_coq(case, f):
         b([False] if fl in ("set_initial_param", "set_initial_unknown") else []),
         b([True] + ([False] if fl in ("bad_grid_constraint", "bad_grid_sample", "bad_grid_integral", "bad_grid_sum",
                                        "bad_grid_variable", "bad_grid_parameter", "master_path_constraint") else [])),
-        b([True] + ([False] if fl in ("foreign_symbol_constraint", "foreign_symbol_ode") else [])),
-        b([True] + ([False] if fl in ("constant_false", "horizon_false_T", "horizon_false_tf", "horizon_false_t") else [])),
+        b([True] + ([False] if fl in ("foreign_symbol_constraint", "foreign_symbol_ode", "set_next_nonstate") else [])),
+        b([True] + ([False] if fl in ("constant_false", "horizon_false_T", "horizon_false_tf", "horizon_false_t", "constant_false_two_sided") else [])),
         nalg, "true" if kind in ("MS", "SS") else "false",
         "false" if fl == "horizon_in_ode" else "true",
         1 if fl == "roots_shooting" else 0,
@@ -123,7 +126,7 @@ def worker(args):
         with contextlib.redirect_stdout(io.StringIO()), contextlib.redirect_stderr(io.StringIO()):
             try:
                 c = copy.deepcopy(case)
-                if fl == "alg_explicit":
+                if fl in ("alg_explicit", "discrete_alg"):
                     c["algebraics"] = [{"rows": 1, "cols": 1}]
                     c["alg"] = [["-", ["s", "z", 0], ["s", "x", 0]]]
                 if fl == "roots_shooting":
@@ -253,6 +256,11 @@ def build_with_fault(c, rockit, f):
     elif fl == "set_value_variable":
         v_ = B.objs["v"][0] if B.objs["v"] else ocp.variable()
         ocp.set_value(v_, 1)
+    elif fl == "set_next_nonstate":
+        # an update rule for something that is not a state (discrete-time cases only)
+        ocp.set_next(B.objs["u"][0] if B.objs["u"] else ca.MX.sym("stranger"), 1)
+    elif fl == "constant_false_two_sided":
+        ocp.subject_to(-1 <= (ca.MX(3) <= 2))
     elif fl == "bad_grid_integral":
         ocp.add_objective(ocp.integral(x0 ** 2, grid="foo"))
     elif fl == "bad_grid_sum":
@@ -313,7 +321,8 @@ def run(tier="quick", seed=0, jobs=16):
         if not bool(a) and r.get("solver_calls", 0) > 0:
             d = [{"what": "an NLP of an ill-posed specification was handed to the solver", "fault": f}]
         if d:
-            dis.append({"property": "C20", "what": d, "case": dict(c, _fault=f), "points": [], "finding_key": None})
+            dis.append({"property": "C20", "what": d, "case": dict(c, _fault=f), "points": [],
+                        "finding_key": "F65-two-sided-constant-false-dropped" if f.get("fault") == "constant_false_two_sided" else None})
         else:
             nontriv.add(sha([c, f]))
     return {"evaluations": len(items), "distinct_nontrivial": len(nontriv),
